@@ -628,7 +628,21 @@ func (vc *VC) noteMapRead(fr *Frame, st *State, m ssa.Value, pos token.Pos) {
 	}
 }
 
+// waitPoint: a blocking operation (select, channel receive) of the function under verification; its contract's
+// "atwait" clauses are asserted here (e.g. "the guard that made the function wait was true at the last lock acquisition").
 func (vc *VC) waitPoint(fr *Frame, st *State, kind string) {
+	if vc.inSpec > 0 || !fr.top || vc.fc == nil || len(vc.fc.AtWait) == 0 {
+		return
+	}
+	n := vc.ordinal("atwait")
+	for i, e := range vc.fc.AtWait {
+		t, err := vc.specBoolAt(fr, st, vc.entryFor(fr), e, fr.curBlock)
+		if err != nil {
+			vc.unsupportedf("atwait of %s: %v", vc.fc.Key, err)
+			continue
+		}
+		vc.oblige(st, "atwait", fmt.Sprintf("%s.%d.%d", kind, n, i+1), "before blocking ("+kind+"): "+e, t, token.NoPos)
+	}
 }
 
 func hasSuffixAny(s string, suf ...string) bool {
